@@ -163,6 +163,9 @@ def R.resetTimer (r : R) : R := { r with timer := newTimer r.timer r.head }
 def R.retryAdd (r : R) (obj : RObj) (rev origRev : Nat) (del : Bool) : R :=
   let old := r.items.find? (·.id = obj.id)
   let n := (match old with | some i => i.numRetries | none => 0) + 1
+  -- the revision of the change that failed originally is kept over the retries of an item
+  -- (the item is removed by `retryClear` when the object changes)
+  let origRev := match old with | some i => i.origRev | none => origRev
   let it : Item := { id := obj.id, obj, rev, origRev, delete := del, retryAt := r.now + backoff r.cfg.minB r.cfg.maxB n,
                      numRetries := n, inQueue := true, inRevQueue := true }
   let tie := (r.items.filter (fun i => i.inQueue ∧ i.id ≠ obj.id)).any (·.retryAt = it.retryAt)
